@@ -671,8 +671,8 @@ def node_contexts(g: Graph) -> List[Union[Variable, None]]:
         if triple[1] != CONCEPT_ROLE and triple[2] in variables:
             eligible.append(cast(Variable, triple[2]))
 
-        if stack[-1] not in eligible:
-            break
+        if not stack or stack[-1] not in eligible:
+            break  # context unknown (or more POPs than contexts so far)
         else:
             contexts[i] = stack[-1]
 
